@@ -376,3 +376,28 @@ class SparseSet:
             if a2 < b2:
                 out[a2 - off : b2 - off] = sparse_pattern(np.arange(a2, b2, dtype=np.uint64))
         return out.tobytes()
+
+
+class _LazySamples:
+    """(nsamples, nchans) view of a SparseSet's model: slices of it are materialised on demand."""
+
+    def __init__(self, ss: SparseSet) -> None:
+        self.ss = ss
+        self.shape = (ss.nsamples, ss.stride)
+        self.dtype = np.dtype(np.uint8)
+
+    def __getitem__(self, k):
+        if not isinstance(k, slice):
+            raise TypeError("slices of whole samples only")
+        a, b, step = k.indices(self.ss.nsamples)
+        assert step == 1
+        n = max(0, b - a)
+        assert n <= 1 << 20, "a lazy model is for small windows of a huge stream"
+        return np.frombuffer(self.ss.model(a * self.ss.stride, n * self.ss.stride), dtype=np.uint8).reshape(n, self.ss.stride)
+
+
+def sparse_fileset(root: str, spec: dict) -> SparseSet:
+    """A SparseSet with the attributes of a FileSet that the block-by-block oracles use."""
+    ss = SparseSet(root, spec)
+    ss.samples = _LazySamples(ss)
+    return ss
